@@ -27,6 +27,8 @@ def check(ctx, run):
     textparser.r02_7(ctx, run)
     safety.panic_inventory(ctx, run, 'R02.8', ROOTS, floor=25, only=lambda p: p.startswith('parser::') or p.startswith('util::'))
     recursion.rrec(ctx, run, 'R02.9', ROOTS, {'document'}, 'recursion of the JSON parser on nesting depth', floor=1)
+    # a depth limit that counts containers instead of depth rejects valid wide documents (R20.6)
+    recursion.depth_counter_pairing(ctx, run, 'R02.16/R20.6', only=lambda p_: p_.startswith(('parser::', 'util::')))
     textparser.r02_10(ctx, run)
     textparser.r02_12(ctx, run, rule='R02.12')
     safety.forbidden_calls(ctx, run, 'R02.13', ROOTS, ('String::from_utf8_lossy', 'from_utf8_lossy', 'String::from_utf16_lossy', 'char::from_u32_unchecked'),
